@@ -5,7 +5,7 @@ import json, os, re, glob
 HERE = os.path.dirname(os.path.abspath(__file__))
 SEED = os.path.join(os.path.dirname(HERE), "seeded")
 rows = []
-for d in sorted(glob.glob(os.path.join(SEED, "C??"))) + sorted(glob.glob(os.path.join(SEED, "R2-C??"))) + sorted(glob.glob(os.path.join(SEED, "R3-C??*"))):
+for d in sorted(glob.glob(os.path.join(SEED, "C??"))) + sorted(glob.glob(os.path.join(SEED, "R2-C??"))) + sorted(glob.glob(os.path.join(SEED, "R3-C??*"))) + sorted(glob.glob(os.path.join(SEED, "R4-C??*"))):
     sid = os.path.basename(d)
     ag = {}
     try:
@@ -29,7 +29,8 @@ for d in sorted(glob.glob(os.path.join(SEED, "C??"))) + sorted(glob.glob(os.path
         "needs_to_manifest": ag.get("needs_to_manifest", "") if isinstance(ag.get("needs_to_manifest", ""), str) else json.dumps(ag.get("needs_to_manifest")),
         "what_i_ran": [
             "tools/confirm_seed.sh (%s) : fresh scratch worktree of /repo HEAD; demo test without the change, existing tests with the change, demo test with the change; worktree removed" % sid,
-            "tools/try_patch.sh seeded/%s/patch.diff : git -C /repo apply; cargo test; ./check Cxx quick for all 20 properties; git -C /repo checkout -- ." % sid,
+            ("tools/eval_frozen.sh : frozen copy of /verif + scratch worktree of /repo HEAD with seeded/%s/patch.diff applied; cargo test; VERIF_REPO=<worktree> ./check Cxx quick for all 20 properties; worktree removed" % sid) if sid.startswith(("R3", "R4")) else
+            ("tools/try_patch.sh seeded/%s/patch.diff : git -C /repo apply; cargo test; ./check Cxx quick for all 20 properties; git -C /repo checkout -- ." % sid),
         ],
         "confirmed_demo_fails_with_change": demo_ok,
         "existing_tests_pass_with_change": tests_ok,
